@@ -64,13 +64,23 @@ def gen_cases(tier, seed):
                 sampler=[None, None, "strat/strat", "strat/semistrat", "strat/semistrat", "uniform/uniform"][int(rng.integers(0, 6))])
     # solves in which epochs fail and later ones recover in part (large steps, several failures allowed, enough epochs): what counts
     # as a failed epoch is decided against the best estimate so far, not against the epoch before
-    for i in range(18 if tier == "quick" else 180):
-        N = int(rng.integers(2, 4))
-        shape = [int(s) for s in rng.integers(2, 5, size=N)]
-        loss, par = losses[i % 2]
-        yield C(w="solve", shape=shape, loss=loss, par=par, solver=["SGD", "Adam", "Adagrad"][i % 3], sparse=bool((i // 3) % 2),
-                rate=[0.2, 1.0, 2.0][i % 3] * float(rng.choice([0.5, 1.0, 2.0])), max_fails=3, epoch_iters=int(rng.integers(1, 4)),
-                max_iters=8, R=int(rng.integers(1, 3)), via_gcp_opt=bool(i % 6 == 0), f_est_tol=None, sampler=None, failing=True)
+    for rep in range(1 if tier == "quick" else 6):
+        i = 0
+        for solver in ("SGD", "Adam", "Adagrad"):
+            for sp in (False, True):
+                for tolk in (None, "above-start", "below-start"):
+                    # (every tolerance kind, and with sparse data every pairing of samplers, under every solver)
+                    for smp in ((None, "strat/strat", "strat/semistrat") if sp else (None, "uniform/uniform")):
+                        i += 1
+                        if tier == "quick" and smp is not None and tolk == "below-start":
+                            continue
+                        N = int(rng.integers(2, 4))
+                        shape = [int(s) for s in rng.integers(2, 5, size=N)]
+                        loss, par = losses[i % 2]
+                        yield C(w="solve", shape=shape, loss=loss, par=par, solver=solver, sparse=sp,
+                                rate={"SGD": 0.2, "Adam": 1.0, "Adagrad": 2.0}[solver] * float(rng.choice([0.5, 1.0, 2.0])), max_fails=3,
+                                epoch_iters=int(rng.integers(1, 4)), max_iters=8, R=int(rng.integers(1, 3)), via_gcp_opt=bool(i % 6 == 0), f_est_tol=tolk,
+                                sampler=smp, failing=True)
     for i in range(24 if tier == "quick" else 160):
         shape = [int(s) for s in rng.integers(2, 5, size=int(rng.integers(2, 4)))]
         loss, par = losses[i % 4]
